@@ -58,6 +58,8 @@ pub enum RespDatum {
     BigBlock(u32),
     /// this many separate data elements (`i % 251` as u8) in one response unit
     ManyU8(u32),
+    /// a block of this many zero bytes (for lengths the block header cannot express)
+    ZeroBlock(u32),
 }
 
 /// `n` pattern bytes with a static lifetime, built once per distinct `n`.
@@ -65,6 +67,13 @@ pub fn big_block(n: u32) -> &'static [u8] {
     static CACHE: std::sync::OnceLock<std::sync::Mutex<std::collections::HashMap<u32, &'static [u8]>>> = std::sync::OnceLock::new();
     let mut m = CACHE.get_or_init(Default::default).lock().unwrap();
     m.entry(n).or_insert_with(|| Box::leak((0..n).map(|i| (i.wrapping_mul(31) >> 3) as u8).collect::<Vec<u8>>().into_boxed_slice()))
+}
+
+/// `n` zero bytes with a static lifetime (lazily mapped: cheap as long as nobody reads them).
+pub fn zero_block(n: u32) -> &'static [u8] {
+    static CACHE: std::sync::OnceLock<std::sync::Mutex<std::collections::HashMap<u32, &'static [u8]>>> = std::sync::OnceLock::new();
+    let mut m = CACHE.get_or_init(Default::default).lock().unwrap();
+    m.entry(n).or_insert_with(|| Box::leak(vec![0u8; n as usize].into_boxed_slice()))
 }
 
 impl RespDatum {
@@ -84,6 +93,7 @@ impl RespDatum {
                 out.push(b')');
             }
             RespDatum::BigBlock(n) => out.extend_from_slice(&crate::model::resp::encode_block(big_block(*n))),
+            RespDatum::ZeroBlock(n) => out.extend_from_slice(&crate::model::resp::encode_block(zero_block(*n))),
             RespDatum::ManyU8(n) => {
                 for i in 0..*n {
                     if i > 0 {
@@ -436,6 +446,7 @@ impl Rec {
                     RespDatum::Chr(s) => resp.data(Character(&s[..])),
                     RespDatum::Expr(s) => resp.data(Expression(&s[..])),
                     RespDatum::BigBlock(n) => resp.data(Arbitrary(big_block(*n))),
+                    RespDatum::ZeroBlock(n) => resp.data(Arbitrary(zero_block(*n))),
                     RespDatum::ManyU8(n) => {
                         for i in 0..*n {
                             resp.data((i % 251) as u8);
